@@ -81,6 +81,10 @@ def build(repo):
     env = dict(os.environ)
     env["RUSTFLAGS"] = "--cfg spindalis_verif -C instrument-coverage"
     env["CARGO_NET_OFFLINE"] = "true"
+    # the instrumented proc-macro crate (spindalis_macros) runs inside rustc while the library is compiled and would drop
+    # default_*.profraw files into the library's source directory: send them to the scratch directory instead
+    os.makedirs(os.path.join(ROOT, ".work", "cov"), exist_ok=True)
+    env["LLVM_PROFILE_FILE"] = os.path.join(ROOT, ".work", "cov", "build-%p.profraw")
     r = subprocess.run(["cargo", "+nightly", "build", "--release", "--offline", "--target-dir", COVDIR],
                        cwd=HARN, env=env, capture_output=True, text=True, timeout=3600)
     if r.returncode != 0 or not os.path.exists(COVBIN):
